@@ -225,6 +225,23 @@ prop("C09", "reconnect lifecycle", "fault_enumeration",
                   "an attempt whose accepting CONNACK was followed at once by a link failure may count as success or failure (lower bound uses the smaller wait)",
                   "timers never fire early"])
 
+prop("C16", "ConnState, Err() and Done() tell the truth", "fault_enumeration",
+     "(i) one BaseClient against the scripted peer: CONNACK accepted / refused / malformed / never sent, optional healthy settle "
+     "point, then 1..4 endings from {peer close, local Close, malformed packet, Disconnect} fired from separate goroutines with "
+     "generated yields so that they race each other and Connect. Oracle from the per-client callback log: Active <= 1 and only "
+     "after an accepting CONNACK; without Disconnect: Closed exactly once with a non-nil error equal to Err(); with Disconnect: "
+     "Disconnected exactly once and no Closed after it; Done() open and Err() nil at the healthy settle point, Done() closed "
+     "after every ending, Err() nil after a graceful Disconnect. (ii) connections managed by the ReconnectClient with keep-alive "
+     "on (1..4 ms), 1..4 reconnects by cuts, a linger of >= 2 ping intervals so that goroutines of earlier connections get their "
+     "chance, then samples: a healthy connection has Err()==nil and Done() open; after a graceful Disconnect of a healthy "
+     "connection Err()==nil and Done() closed; per connection Active/Closed/Disconnected at most once, Closed with an error. "
+     "Non-trivial = >= 2 racing endings or endings racing Connect (i); >= 2 managed connections with a sample (ii); distinct = "
+     "FNV-64 of the case JSON.",
+     [dict(tests="^TestVerifC16_Base$", checks_quick=6000, checks_thorough=60000, shards=8),
+      dict(tests="^TestVerifC16_Reconnect$", checks_quick=500, checks_thorough=4000, shards=8, shards_quick=2)],
+     assumptions=["no order between Active and Closed is asserted (Connect can lose the race when the peer closes right after CONNACK)",
+                  "'healthy' = no fault has been applied to that connection; once any ending was issued Err() is unconstrained until observed"])
+
 # ---------------------------------------------------------------------------------------------
 # texts for MANIFEST.json (tools/gen_manifest.py)
 
@@ -333,3 +350,8 @@ mtext("C09", "lifecycle runner on E3 broker model + gated dialer",
       "rapid property test over scripted attempt outcomes x stop phase; oracle = lower-bound timing invariant, transport hygiene, decoded CONNECT equality, no dial after stop",
       "Sampling of failure sequences and stop placements; stop phases are made deterministic with a gated dialer / withheld CONNACK, all timing assertions are lower bounds.",
       E4NOTE, "DESIGN.md section 4 / C09")
+
+mtext("C16", "E5 scripted peer (racing endings) + E4 runner with keep-alive",
+      "rapid property tests; oracle = small automaton over the per-connection callback log plus sampled Err()/Done() at healthy and ended points",
+      "Sampling of ending combinations and schedules (generated yields); replays repeat a case 10-50 times because the races are schedule dependent.",
+      E4NOTE, "DESIGN.md section 4 / C16")
